@@ -12,6 +12,7 @@ import (
 
 	"github.com/smart-core-os/sc-api/go/traits"
 	"github.com/smart-core-os/sc-api/go/types"
+	"github.com/smart-core-os/sc-golang/pkg/masks"
 	"github.com/smart-core-os/sc-golang/pkg/resource"
 )
 
@@ -110,7 +111,7 @@ func (m *ModelServer) ListPublications(_ context.Context, request *traits.ListPu
 	}
 	pageSize := capPageSize(int(request.GetPageSize()))
 
-	sortedItems := m.model.ListPublications(resource.WithReadMask(request.ReadMask))
+	sortedItems := m.model.ListPublications()
 	nextIndex := 0
 	if lastKey != "" {
 		nextIndex = sort.Search(len(sortedItems), func(i int) bool {
@@ -136,7 +137,14 @@ func (m *ModelServer) ListPublications(_ context.Context, request *traits.ListPu
 	if err != nil {
 		return nil, err
 	}
-	result.Publications = sortedItems[nextIndex:upperBound]
+	// the read mask is applied to the page only: the key that the page token and the search rely on has to be read from
+	// the complete items, otherwise a mask that leaves the key out yields the same token for ever
+	filter := masks.NewResponseFilter(masks.WithFieldMask(request.ReadMask))
+	page := sortedItems[nextIndex:upperBound]
+	result.Publications = make([]*traits.Publication, len(page))
+	for i, item := range page {
+		result.Publications[i] = filter.FilterClone(item).(*traits.Publication)
+	}
 	return result, nil
 }
 
